@@ -52,6 +52,8 @@ def dp_event(c, seed):
     a = rng.random(lead + n).astype(np.float32)
     if c["zero_member"]:
         a[1] = 0.0
+    if c.get("negative_member"):
+        a[2] = a[2] - 1.7 * rng.random(n).astype(np.float32)          # specimen minus reference: mixed signs, negative total
     kw = {"uniform": dict(sampling="uniform"), "one_sampling": dict(sampling=float(max(d) * Fraction(5, 4))),
           "two_samplings": dict(sampling=(float(d[0] * 2), float(d[1] * Fraction(3, 2)))),
           "gpts_smaller": dict(gpts=(n[0] - 2, n[1] - 3)), "gpts_larger": dict(gpts=(n[0] + 5, n[1] + 2)), "gpts_same": dict(gpts=n)}[c["target"]]
@@ -65,7 +67,7 @@ def dp_event(c, seed):
             ev["finite"] = bool(np.isfinite(out).all())
             tot0 = a.sum((-2, -1))
             tot1 = np.nan_to_num(out, nan=0.0).sum((-2, -1))
-            scale = float(tot0.max())
+            scale = float(np.abs(tot0).max())
             worst = np.abs(tot0.astype(np.float64) - tot1.astype(np.float64)).reshape(-1) / scale
             ev["total_ppb"] = [ppb(float(x)) for x in (worst if worst.size <= 6 else np.sort(worst)[-6:])]
             ev["gpts"] = list(out.shape[-2:])
@@ -236,7 +238,7 @@ def run(ctx: Ctx):
         # one case per stratum at every seed: dp (target, stack, lazy), image (target, complex, lazy), source (layout, sigma, lazy); then the seeded remainder
         def stratum(c):
             if c["k"] == "dp":
-                return ("dp", c["target"], c.get("stack"), c["lazy"])
+                return ("dp", c["target"], c.get("stack"), c["lazy"], c.get("negative_member"))
             if c["k"] == "image":
                 return ("image", c["target"], c.get("complex"), c["lazy"])
             return ("source", c.get("layout"), c.get("sigma"), c["lazy"])
